@@ -468,6 +468,25 @@ WRAPPERS = [
 ]
 
 
+# Values computed by a formula column of a SPECIFIC type and read through an Any column (G = rec.F):
+# the typed column keeps its own object (a RecordList in a RefList column, a tuple in a ChoiceList
+# column ...), and the rich value handed to G is built from it.  (name, family, type of F, expr, G)
+TYPED = [
+    ('reflist-of-lookup', 'typed-column', 'RefList:T', 'T.lookupRecords()', ['r', 'T', [1]]),
+    ('reflist-of-lookup-sorted', 'typed-column', 'RefList:T', 'T.lookupRecords(order_by="-A")', ['r', 'T', [1]]),
+    ('reflist-of-ids', 'typed-column', 'RefList:T', '[1]', ['r', 'T', [1]]),
+    ('reflist-empty-lookup', 'typed-column', 'RefList:T', 'T.lookupRecords(A="nope")', ['r', 'T', []]),
+    ('ref-of-lookupOne', 'typed-column', 'Ref:T', 'T.lookupOne(A=1)', ['R', 'T', 1]),
+    ('ref-of-rec', 'typed-column', 'Ref:T', 'rec', ['R', 'T', 1]),
+    ('choicelist-of-tuple', 'typed-column', 'ChoiceList', '("a", "b")', ['L', 'a', 'b']),
+    ('choicelist-of-list', 'typed-column', 'ChoiceList', '["a", "b"]', ['L', 'a', 'b']),
+    ('date-of-date', 'typed-column', 'Date', 'datetime.date(2020, 1, 2)', ['d', 1577923200.0]),
+    ('datetime-of-datetime', 'typed-column', 'DateTime:UTC', 'datetime.datetime(2020, 1, 2, 3, 4, 5)',
+     ['D', 1577934245.0, 'UTC']),
+    ('attachments-of-ids', 'typed-column', 'Attachments', '[1]', None),
+]
+
+
 def formula_text(setup, expr, self_col='F'):
   body = (setup + '\n' if setup else '')
   if expr is not None:
@@ -489,6 +508,8 @@ def program_cases(tier):
           p = None if p is None else pf(p)
         yield ({'atom': name, 'family': fam, 'wrap': [w[0] for w in combo], 'setup': setup,
                 'expr': e}, p)
+  for (name, fam, ftype, expr, pat) in TYPED:
+    yield ({'atom': name, 'family': fam, 'wrap': [], 'setup': '', 'expr': expr, 'ftype': ftype}, pat)
   for (name, fam, stmts, errname) in RAISERS:
     if stmts.split('\n')[-1].startswith('raise '):
       stmts += '\nreturn None'      # the formula compiler insists on a return statement
@@ -636,8 +657,8 @@ def short(x, n=160):
 # Scenarios (generators yielding calls, receiving [call, code, body])
 # ----------------------------------------------------------------------------------------------
 
-def col(cid, formula=None, is_formula=False, recalc_when=0):
-  c = {'id': cid, 'type': 'Any', 'isFormula': is_formula}
+def col(cid, formula=None, is_formula=False, recalc_when=0, ctype='Any'):
+  c = {'id': cid, 'type': ctype, 'isFormula': is_formula}
   if formula is not None:
     c['formula'] = formula
     if not is_formula:
@@ -672,9 +693,12 @@ def scenario(route, case, cellvalue, notes):
   yield ['apply_user_actions', [['InitNewDoc']]]
   if route == 'formula':
     text = formula_text(case['setup'], case['expr'], 'F')
-    columns = [col('A'), col('B'), col('F', text, True), col('G', 'rec.F', True)]
+    ftype = case.get('ftype', 'Any')
+    columns = [col('A'), col('B'), col('F', text, True, ctype=ftype), col('G', 'rec.F', True)]
     culprits = ['G', 'F']
-    vcols = ['F', 'G']
+    # a typed F holds the value in its column's own form; the Any column G = rec.F is what must
+    # show the documented encoding (F's cell is still subject to the marshal and round-trip laws)
+    vcols = ['F', 'G'] if ftype == 'Any' else ['G']
     dcol = None
   elif route == 'trigger':
     text = formula_text(case['setup'], case['expr'], 'D')
@@ -909,6 +933,8 @@ def routes_for(tier, case):
   """quick: bare atoms and the list/dict-value wrappers on every route, the other wrappers through
   the formula route only.  thorough: compositions of <= 1 wrapper on every route, of 2 wrappers
   through the formula route only."""
+  if case.get('ftype'):
+    return ('formula',)
   if tier == 'quick':
     return PROGRAM_ROUTES if all(w in QUICK_ALL_ROUTES for w in case['wrap']) else ('formula',)
   return PROGRAM_ROUTES if len(case['wrap']) <= 1 else ('formula',)
